@@ -37,6 +37,13 @@ def samples(r):
     pdf = os.path.join(core.REPO, "internal/pkg/postprocessor/extractor/testdata/InternetArchiveDeveloperPortal.pdf")
     if os.path.exists(pdf):
         out.append(("application/pdf", open(pdf, "rb").read()))
+    # legal but degenerate markup: empty and blank attribute values, dangling commas, empty url()
+    out.append(("text/html", b'<html><head><link rel="stylesheet" href=""><script src=""></script><style>body{background:url()} p{background:url("")}</style>'
+                b'<meta property="og:image" content=""></head><body><img src=""><img src=" "><img srcset="a.png 1x, "><img srcset=","><source srcset="">'
+                b'<video src="" poster=""></video><audio src=""></audio><a href="">e</a><a href=" ">b</a><div style="background:url()">x</div>'
+                b'<img src="ok.png"><iframe src=""></iframe><embed src=""><object data=""></object></body></html>'))
+    out.append(("application/json", b'{"a": "", "b": [" ", "", "http://"], "c": {"": ""}, "d": "[]", "e": "{}"}'))
+    out.append(("application/xml", b'<?xml version="1.0"?><urlset><url><loc></loc></url><url><loc> </loc></url><a href=""/><b src=""></b></urlset>'))
     out.append(("text/plain", b"see http://a.example/x and https://b.example/y.png, also www.c.example\n" * 5))
     return out
 
@@ -73,6 +80,13 @@ def mutate(r, b):
             if ms:
                 m = r.choice(ms)
                 b[m.start():m.end()] = r.choice(NUMS)
+        elif k < 0.84:
+            # empty or blank an attribute / string value
+            import re
+            ms = list(re.finditer(rb'"[^"\n]{1,200}"', bytes(b)))
+            if ms:
+                m = r.choice(ms)
+                b[m.start():m.end()] = r.choice([b'""', b'" "', b'","', b'"\t"'])
         elif k < 0.86:
             lines = bytes(b).split(b"\n")
             r.shuffle(lines)
